@@ -10,7 +10,7 @@ NOT_APPLICABLE["C03"] = ("relation between an arbitrary dynamic call tree and an
                          "evolution of handler collections and accumulator forks; no sound static abstraction in reach bounds embeddings")
 NOT_APPLICABLE["C07"] = ("quantifies over call trees and runtime data flow through Total accumulator forks; its only structural clause "
                          "(exit hook on every way out) is decided under C06 rule R06.1")
-SOURCE_COMMITS = ["746fd1a fix: undo the instrumentation counts when the new variant cannot be installed", "798314f fix: untool the functions of a selector that autotool ends up refusing", "f8603ba fix: roll back the tooling of earlier selectors when a later one is refused", "e29e1a9 fix: mark the cached instrumented variants as helper functions", "ceee686 fix: match the receiver of a bound-method selector by identity", "f362961 fix: serialize instrumentation changes between threads"]
+SOURCE_COMMITS = ["746fd1a fix: undo the instrumentation counts when the new variant cannot be installed", "798314f fix: untool the functions of a selector that autotool ends up refusing", "f8603ba fix: roll back the tooling of earlier selectors when a later one is refused", "e29e1a9 fix: mark the cached instrumented variants as helper functions", "ceee686 fix: match the receiver of a bound-method selector by identity", "f362961 fix: serialize instrumentation changes between threads", "3d31492 fix: do not rewrite the bodies of nested classes, lambdas and async functions"]
 
 claim("C12", "P", "AST normal-form comparison tables + wrapper-guard agreement (syntactic dataflow)",
       "Decides structural clauses only: each stock comparison predicate is the single comparison its name states (holds for all "
@@ -60,3 +60,10 @@ claim("C08", "P", "lockset analysis over the resolved call graph (locks held on 
       "published collections are immutable, templates are forked per call. It does not explore interleavings, and a correct lock-free redesign would be flagged.",
       "Trusted: CPython atomicity of single dict/set stores and itertools.count; exemption table EXEMPT in sa/rules/c08.py (one reason per symbol). Concurrent callers during transform()'s exec window are not covered.",
       "DESIGN.md section 6, C08")
+
+claim("C01", "T", "abstract interpretation of the AST-builder code over a term domain (output templates with symbolic instrumentation choices); template queries: slot linearity/order, synthesised-operation whitelist, handler/finally shape, scope and declaration rules",
+      "Decides necessary structural conditions of transparency for every program, every grammar-legal target shape and every instrumentation subset at once (the template does not depend on "
+      "the program): each payload slot evaluated exactly once in language order inside the original construct; no synthesised operation on user values; synthesised handlers re-raise; scope hygiene; "
+      "declaration order; target-shape totality; closure cells shared. Observational equality itself is not claimed. Eight genuine defects of the pinned tree are listed as known findings with inputs.",
+      "Trusted: CPython's NodeTransformer dispatch/splicing and evaluation order table; interact returns its argument when nothing intercepts (C04). Builder code outside the interpreted subset gives ANALYSIS-ERROR.",
+      "DESIGN.md sections 3 and 6, C01")
